@@ -52,7 +52,7 @@ class C07(BaseCheck):
     out = CaseResult()
     classes = set()
     INF = 2 ** 31 - 1
-    mn, mx, ql = rng.choice([(0, 1, 1), (1, 1, INF), (1, 2, 2), (2, 4, 3), (1, 3, 0), (0, 2, INF), (1, 1, 2),
+    mn, mx, ql = rng.choice([(3, 2, 2), (4, 1, INF), (0, 1, 1), (1, 1, INF), (1, 2, 2), (2, 4, 3), (1, 3, 0), (0, 2, INF), (1, 1, 2),
                              (3, 3, 1), (1, 6, 4), (0, 1, INF)])
     open_mode = rng.choice(['sync', 'sync', 'delayed'])
     close_yields = idx % 5 == 3        # connections whose Close() does cooperative work (flush, TLS shutdown)
